@@ -36,6 +36,14 @@ DefsQquick == {[cps |-> c, feats |-> x[1], ds |-> x[2], fall |-> x[3], dall |-> 
             c \in {{}, {0}, {0, 1}},
             x \in {<<{}, {}, FALSE, FALSE>>, <<{0}, {<<1, 1>>}, FALSE, FALSE>>, <<{}, {}, TRUE, TRUE>>, <<{}, {}, FALSE, TRUE>>}}
 
+\* two design axes (glyph keyed entries only): one shared axis with overlapping segments is enough, whatever the other
+\* axis says; axes named by one side only are ignored; no shared axis at all is no match
+SegsAx == {{}, {<<0, 1, 0>>}, {<<0, 1, 1>>}, {<<0, 1, 0>>, <<3, 4, 1>>}, {<<3, 4, 0>>, <<0, 1, 1>>}, {<<0, 1, 0>>, <<0, 1, 1>>}, {<<3, 4, 0>>, <<3, 4, 1>>}}
+FontsAx == {[ift |-> [compat |-> 1, tmpl |-> "A", entries |-> <<E({}, {}, s1, {}, FALSE, FALSE, "glyph", 1), E(c, {}, s2, k[1], k[2], FALSE, "glyph", 2)>>],
+             iftx |-> NoT] : s1 \in SegsAx, s2 \in SegsAx, c \in {{}, {1}}, k \in {<<{}, FALSE>>, <<{1}, FALSE>>, <<{1}, TRUE>>}}
+DefsAx == {[cps |-> {0}, feats |-> {}, ds |-> s, fall |-> FALSE, dall |-> a] :
+             s \in SegsAx \cup {{<<1, 3, 0>>, <<1, 3, 1>>}, {<<5, 6, 0>>, <<0, 0, 1>>}, {<<2, 2, 1>>}}, a \in BOOLEAN}
+
 \* invalidating entries sharing URIs inside one table (three entries, sizes 1..3, ids 1..2), optionally
 \* mirrored in IFTX: exercises de-duplication together with the largest-intersection rule
 P3(c, n, m) == E(c, {}, {}, {}, FALSE, FALSE, m, n)
